@@ -74,13 +74,16 @@ def check(ctx):
             tot[e["ev"]] += 1
             if e["ev"] == "Inv":
                 kinds["wide-" + e["k"]] += 1
+    # bulk writers against a slow log device: no call may be lost to a dying engine (log buffer overflow, spec/LogBuffer)
+    from . import crash
+    storm = crash.logstorm(ctx, ["C12."])
     for k in ("read", "upd", "ins"):
         if kinds[k] == 0:
             raise Inconclusive("vacuous: no %s calls" % k)
     ctx.samples.append(dict(kind="history (first events)", events=vlib.read_ndjson(os.path.join(ctx.work, "hist-p4.ndjson"), limit=8)))
     vlib.write_evidence(ctx, "model_checking", dict(
         states=ctx.states, transitions=ctx.transitions, traces_validated_against_impl=ctx.traces,
-        samples=ctx.samples, exhaustive=False, gate_schedule=gate, history_events=dict(tot), calls=dict(kinds), run_loop_protocol_events=dict(proto),
+        samples=ctx.samples, exhaustive=False, gate_schedule=gate, history_events=dict(tot), calls=dict(kinds), run_loop_protocol_events=dict(proto), log_storm=storm,
         constants="RequestManager MC: 3 clients, Cap 1, 1 worker, 1 abort (thorough: 4 clients, Cap 2, 2 workers); liveness under WF",
         events_validated=ctx.events),
         ["invoke / return order comes from one shared atomic counter incremented by the calling goroutine immediately before the call and immediately after it returns (never wall-clock time)",
